@@ -29,13 +29,14 @@ def parseRange (s : String) : Option (Option TRange) :=
 
 def showNats (l : List Nat) : String := ",".intercalate (l.map toString)
 
-/-- `rdread <log> <types> <range> <sources> <maxbytes> <reqp1>` : model of constructor + read everything -/
-def cmdRdRead (args : List String) : String :=
+/-- `rdread <log> <types> <range> <sources> <maxbytes> <reqp1>` : model of constructor + read everything;
+`rdreadfip` : the time range handed to `filter_in_place()` of a reader constructed with the other criteria -/
+def cmdRdRead (viaFilterInPlace : Bool) (args : List String) : String :=
   match args with
   | [lg, ty, rg, src, mb, rq] =>
     match parseLog lg, parseNats ty, parseRange rg, parseNats src, optNat mb with
     | some log, some types, some range, some sources, some maxBytes =>
-      match construct log types range with
+      match (if viaFilterInPlace then constructThenFilterTime log types range else construct log types range) with
       | none => "IndexError"
       | some cur => showNats (readAll log sources maxBytes (rq == "1") cur)
     | _, _, _, _, _ => "bad-args"
@@ -91,7 +92,8 @@ def cmdRdCursor (spec : Bool) (args : List String) : String :=
 
 def dispatchReader (cmd : String) (args : List String) : Option String :=
   match cmd with
-  | "rdread" => some (cmdRdRead args)
+  | "rdread" => some (cmdRdRead false args)
+  | "rdreadfip" => some (cmdRdRead true args)
   | "rdspec" => some (cmdRdSpec args)
   | "rdcursor" => some (cmdRdCursor false args)
   | "rdcursorspec" => some (cmdRdCursor true args)
